@@ -70,11 +70,6 @@ func (f *frame) execInstr(in ssa.Instruction) {
 			unsup("extract from non-tuple")
 		}
 		f.vals[x] = tup[x.Index]
-		if call, ok := x.Tuple.(*ssa.Call); ok {
-			if dt, ok := f.dynType[resultKey{call, x.Index}.val()]; ok {
-				f.dynType[x] = dt
-			}
-		}
 		if ta, ok := x.Tuple.(*ssa.TypeAssert); ok && x.Index == 0 {
 			if !types.IsInterface(ta.AssertedType) {
 				f.dynType[x] = ta.AssertedType
@@ -189,10 +184,12 @@ func (f *frame) execInstr(in ssa.Instruction) {
 		f.setEdge(f.cur, 0, f.guard)
 	case *ssa.Return:
 		vals := make([]Val, len(x.Results))
+		dyn := make([]types.Type, len(x.Results))
 		for i, r := range x.Results {
 			vals[i] = f.get(r)
+			dyn[i] = f.dynType[r]
 		}
-		f.rets = append(f.rets, retRec{cond: f.guard, vals: vals, heap: f.heap.clone(), pos: x.Pos(), blk: f.cur})
+		f.rets = append(f.rets, retRec{cond: f.guard, vals: vals, heap: f.heap.clone(), pos: x.Pos(), blk: f.cur, dyn: dyn})
 	case *ssa.Panic:
 		if f.c.eng.allowPanic(f.c.fn, f.contract) {
 			f.panics = append(f.panics, f.guard)
@@ -240,14 +237,6 @@ func (f *frame) loopOf(b *ssa.BasicBlock) *loopInfo {
 	return nil
 }
 
-type resultKey struct {
-	call *ssa.Call
-	idx  int
-}
-
-// val gives a pseudo-key for dynType of tuple results: we simply do not track them
-// through a map keyed by ssa.Value; see dynResult.
-func (r resultKey) val() ssa.Value { return nil }
 
 func (f *frame) nilCheck(in siteT, p Term) {
 	if f.c.eng.nilChecks(f.c.fn, f.contract) {
@@ -641,7 +630,11 @@ func (f *frame) execSlice(x *ssa.Slice) {
 		if !ok {
 			unsup("slice of interior array address")
 		}
-		f.vals[x] = c.name(f.vname(x), mkSlice(b, lo, sub(hi, lo), sub(mx, lo)))
+		sl := c.name(f.vname(x), mkSlice(b, lo, simplifyInt(sub(hi, lo)), simplifyInt(sub(mx, lo))))
+		if k, ok := smallConst(simplifyInt(sub(hi, lo))); ok {
+			c.eng.constLen[sl.S] = k
+		}
+		f.vals[x] = sl
 	default:
 		unsup("slice of %s", x.X.Type())
 	}
